@@ -124,6 +124,8 @@ fn raw_bad(kind: &str) -> Vec<u8> {
             v
         }
         "Oversize" => ((MAX_FRAME + 1) as u32).to_be_bytes().to_vec(),
+        // the stream ends inside a length prefix (2 of its 4 bytes)
+        "PartialPrefix" => vec![0, 0],
         _ => {
             // Partial: announces 100 bytes, delivers 10
             let mut v = 100u32.to_be_bytes().to_vec();
@@ -133,7 +135,7 @@ fn raw_bad(kind: &str) -> Vec<u8> {
     }
 }
 
-const BOB_FRAMES: &[&str] = &["InitOk", "InitOk", "InitItems", "InitUnknown", "InitBadId", "SyncValid", "SyncValid", "SyncArb", "SyncBadId", "Abort", "Garbage", "Oversize", "Partial", "Eof"];
+const BOB_FRAMES: &[&str] = &["InitOk", "InitOk", "InitItems", "InitUnknown", "InitBadId", "SyncValid", "SyncValid", "SyncArb", "SyncBadId", "Abort", "Garbage", "Oversize", "Partial", "PartialPrefix", "Eof"];
 const CONDS: &[&str] = &["", "", "", "", "closed", "syncoff", "down"];
 
 /// Scripted peer against the real acceptor.
@@ -239,7 +241,7 @@ pub async fn bob_case(w: &World, rng: &mut Rng, script: &Value) -> Value {
             }
             other => {
                 let _ = peer_w.write_all(&raw_bad(other)).await;
-                if other == "Partial" {
+                if other == "Partial" || other == "PartialPrefix" {
                     let _ = peer_w.shutdown().await;
                     closed = true;
                 }
@@ -290,7 +292,7 @@ pub async fn bob_case(w: &World, rng: &mut Rng, script: &Value) -> Value {
            "changed": before != after, "hang": hang, "ns": ns_known, "alive": alive})
 }
 
-const ALICE_FRAMES: &[&str] = &["SyncValid", "SyncValid", "SyncValid", "SyncArb", "SyncBadId", "InitOk", "Abort", "Garbage", "Oversize", "Partial", "Eof"];
+const ALICE_FRAMES: &[&str] = &["SyncValid", "SyncValid", "SyncValid", "SyncArb", "SyncBadId", "InitOk", "Abort", "Garbage", "Oversize", "Partial", "PartialPrefix", "Eof"];
 
 /// Scripted peer against the real initiator.
 pub async fn alice_case(w: &World, rng: &mut Rng, script: &Value) -> Value {
@@ -394,7 +396,7 @@ pub async fn alice_case(w: &World, rng: &mut Rng, script: &Value) -> Value {
             }
             other => {
                 let _ = peer_w.write_all(&raw_bad(other)).await;
-                if other == "Partial" {
+                if other == "Partial" || other == "PartialPrefix" {
                     let _ = peer_w.shutdown().await;
                     closed = true;
                 }
